@@ -151,8 +151,20 @@ class Strings(Contract):
             x2 = Fxp([a[:2], a[2:]], s, n, f, raw=True)
             got = x2.bin(prefix='0b')
             chk('array2d_render', [list(r) for r in got] == [[spec_bin(c, n, None, '0b') for c in a[:2]], [spec_bin(c, n, None, '0b') for c in a[2:]]], [a])
+            try:
+                dots = x1.bin(frac_dot=True)
+            except Exception as e:
+                dots = 'raised %s' % type(e).__name__
+            chk('array_render', dots == [spec_bin(c, n, f) for c in a], [a, 'frac_dot', dots])
             texts = x1.bin(prefix='0b')
             keep = list(texts)
+            # the same strings carried by a NumPy string array (1-d and 2-d), raw mode: any width, any fraction length
+            for arr_texts, want in ((P.np.array(texts), a), (P.np.array([texts[:2], texts[2:]]), a), (P.np.array(x1.hex()), a)):
+                try:
+                    yv = [int(v) for v in P.np.ravel(Fxp(arr_texts, s, n, f, raw=True).val)]
+                except Exception as e:
+                    yv = 'raised %s' % type(e).__name__
+                chk('array_parse', yv == want, [want, 'ndarray of str', yv])
             y = Fxp(texts, s, n, f, raw=True)
             chk('array_parse', [int(v) for v in y.val] == a, [a, [int(v) for v in y.val]])
             chk('input_unchanged', texts == keep and all(isinstance(t, str) for t in texts), [texts])
